@@ -19,7 +19,9 @@ from mc.common import Acc
 
 RULE = ("every placement of <= k unexplained atoms on 1..n residues x modification sets; distinct = distinct (molecule, "
         "modification set); non-trivial = at least one unexplained atom and at least two candidate placements or no cover")
-ASSUMPTIONS = ["molecules are given in the state RepairGraph leaves them in (canonical names, PTM_atom flags, elements, resids)",
+ASSUMPTIONS = ["ring-closing unexplained atoms (bonded to an earlier unexplained atom and to a residue atom) are included so that "
+               "non-induced placements occur",
+               "molecules are given in the state RepairGraph leaves them in (canonical names, PTM_atom flags, elements, resids)",
                "which exact cover is chosen is not prescribed: any valid one is accepted",
                "modifications without any added atom are not generated (they cannot be recognised from structure)"]
 
@@ -86,6 +88,11 @@ def build(nres, extras, ff):
         elif attach[0] == 'extra':
             anchors = [extra_keys[attach[1]]]
             resid = mol.nodes[anchors[0]]['resid']
+        elif attach[0] == 'both':
+            # bonded to an earlier unexplained atom AND to a residue atom: closes a ring, so that a
+            # placement covering these atoms is no longer an induced subgraph
+            anchors = [extra_keys[attach[1]], atom_key[(attach[2], attach[3])]]
+            resid = attach[2] + 1
         else:
             anchors = [atom_key[(attach[1], 'CA')], atom_key[(attach[2], 'CA')]]
             resid = attach[1] + 1
@@ -309,6 +316,11 @@ def all_extras(nres, max_extra):
                     yield (one, (e, s))
             for b in bridges:
                 yield (one, ('S', b))
+            if one[1][0] == 'atom':
+                for e in ('H', 'O'):
+                    for s in sites:
+                        if s[1] == one[1][1]:
+                            yield (one, (e, ('both', 0, s[1], s[2])))
     if max_extra >= 3:
         # the combinations that stress sub-patterns: up to three atoms on the N and the C of one residue
         for combo in itertools.product([('H', ('atom', 0, 'N')), ('O', ('atom', 0, 'C')), ('H', ('extra', 0)), ('H', ('extra', 1)),
